@@ -215,6 +215,12 @@ func (p *ProjectionParser) makeProjection(s *Projection, q string, proj parse.Fi
 					// Create a new field for this new key.
 					field = s.addField(group, cfg.Key)
 					initField(field)
+					if field.order != nil && len(s.keys) > 0 {
+						// Every key interned before this field
+						// existed has the empty value for it, so
+						// that's the first value we observed.
+						field.order[""] = 0
+					}
 					seen[cfg.Key] = field
 				}
 
@@ -505,8 +511,10 @@ func (p *Projection) internRow() Key {
 		}
 	}
 
-	// Update observation orders.
-	for _, field := range p.Fields() {
+	// Update observation orders. This must visit the fields inside
+	// group fields like .config, too, since each of those tracks its
+	// own observation order.
+	for _, field := range p.FlattenedFields() {
 		if field.order == nil {
 			// Not tracking observation order for this field.
 			continue
